@@ -1,2 +1,29 @@
-"""Per-property constant anchors (see extract_consts.py)."""
-EXTRA = []
+"""Per-property constant anchors (see extract_consts.py).
+
+Each entry: (lean name, file, regex, kind, [properties]).  kind is 'nat',
+'natlist', 'str' or a callable taking the match object.
+"""
+import re
+
+
+def _num(s):
+    s = s.replace('_', '')
+    for suf in ('u8', 'u16', 'u32', 'u64', 'u128', 'usize'):
+        if s.endswith(suf):
+            s = s[:-len(suf)]
+    return int(s, 0)
+
+
+ADDR = 'src/resources/addr.rs'
+ASN = 'src/resources/asn.rs'
+
+EXTRA = [
+    # ---- C13
+    ('falV4Max', ADDR, r'pub fn new_v4\(len: u8\) -> Result<Self, PrefixError> \{\s*if len > (\d+) \{', 'nat', ['C13']),
+    ('falV6Max', ADDR, r'pub fn new_v6\(len: u8\) -> Result<Self, PrefixError> \{\s*match len\.cmp\(&(\d+)\)', 'nat', ['C13']),
+    ('falV6Full', ADDR, r'Ordering::Equal => Ok\(Self\((0x[0-9a-fA-F]+)\)\)', 'nat', ['C13']),
+    ('falXor', ADDR, r'Ordering::Less => Ok\(Self\(len \^ (0x[0-9a-fA-F]+)\)\)', 'nat', ['C13']),
+    ('asnSetDedup', ASN,
+     r'impl iter::FromIterator<Asn> for SmallAsnSet \{\s*fn from_iter<T: IntoIterator<Item = Asn>>\(iter: T\) -> Self \{([\s\S]*?)\n    \}',
+     lambda m: bool(re.search(r'res\.0\.sort(_unstable)?\(\);\s*res\.0\.dedup\(\);', m.group(1))), ['C13']),
+]
